@@ -9,10 +9,16 @@ breaks the obligations of the properties that rest on that part.
 namespace Eav.Props.GenTie
 open Eav
 
-/-- the `case` lists returning EEAV_LPART_SPECIAL, per scanner and per build option -/
-theorem specials_eq : Gen.specialsCases =
-    [("src/is_822_local.c", "", specials), ("src/is_5321_local.c", "", specials), ("src/is_5322_local.c", "", specials),
-     ("src/is_6531_local.c", "", specials), ("src/is_6531_local.c", "RFC6531_FOLLOW_RFC20", specials ++ rfc20set),
-     ("src/is_6531_local.c", "RFC6531_FOLLOW_RFC5322", specials)] := by decide
+/-- same bytes, whatever the order -/
+def sameSet (a b : List Nat) : Bool := a.all b.contains && b.all a.contains
+
+/-- the bytes each scanner refuses as "special" outside quotes, per scanner and per build option (probed on the code
+compiled from the tree): exactly the model's `specials`, plus `rfc20set` under `RFC6531_FOLLOW_RFC20` -/
+theorem specials_eq :
+    (Gen.specialsCases.map fun e => (e.1, e.2.1)) =
+      [("src/is_822_local.c", ""), ("src/is_5321_local.c", ""), ("src/is_5322_local.c", ""), ("src/is_6531_local.c", ""),
+       ("src/is_6531_local.c", "RFC6531_FOLLOW_RFC20"), ("src/is_6531_local.c", "RFC6531_FOLLOW_RFC5322")] ∧
+    ((Gen.specialsCases.map (·.2.2)).zip [specials, specials, specials, specials, specials ++ rfc20set, specials]).all
+      (fun p => sameSet p.1 p.2) = true := by decide
 
 end Eav.Props.GenTie
